@@ -392,6 +392,11 @@ def run_case(case):
             return fail('K0.register', rule=text, method=meth, registered=[S.render(rules[j][0], rules[j][1]) for j in reg],
                         error='%s: %s' % (type(e).__name__, str(e)[:200]))
         reg.append(idx)
+        # lookups interleaved with registration: whatever a lookup leaves behind (e.g. a cache) must not change later answers
+        for k, (wpath, _small) in enumerate(_paths(case)):
+            if k >= 12:
+                break
+            C.observe_resolve(router, wpath, meth)
     regs = [rules[i][0] for i in reg]
     methods = [rules[i][2] for i in reg]
     toks = [S.tokens(r) for r in regs]
@@ -417,7 +422,30 @@ def run_case(case):
                     return failure
                 if first_known is None:
                     first_known = failure
-    return first_known
+    if first_known is not None or len(reg) < 2:
+        return first_known
+    # ---- the statement speaks about "every set of registered rules": also a set reached by removing a rule again.
+    # One registered rule (with every rule sharing its route) is removed by rule text and every path is asked again.
+    victim = reg[len(reg) // 2]
+    vsegs, vfl, _vm = rules[victim]
+    try:
+        app.remove_route(S.render(vsegs, vfl))
+    except Exception as e:  # noqa
+        return fail('K3.remove_raised', rule=S.render(vsegs, vfl), error='%s: %s' % (type(e).__name__, str(e)[:200]))
+    reg2 = [i for i in reg if not S.same_route(rules[i][0], vsegs)]
+    regs2 = [rules[i][0] for i in reg2]
+    methods2 = [rules[i][2] for i in reg2]
+    toks2 = [S.tokens(r) for r in regs2]
+    for path in sorted(done):
+        outcomes = S.select(regs2, path, toks2)
+        for verb in verbs:
+            acc = _expected(outcomes, verb, methods2, reg2)
+            obs = C.observe_resolve(router, path, verb)
+            failure = _compare('K3', obs, acc, regs2, reg2, methods2, path, verb)
+            if failure is not None and not (failure.get('clause') == 'K3.kwargs' and failure.get('names_of_rule') is not None):
+                failure['removed'] = S.render(vsegs, vfl)
+                return failure
+    return None
 
 
 # ----------------------------------------------------------------------------- known defect classes
